@@ -136,6 +136,11 @@ def check_c02(opts):
                 ('roll(3,1)', lambda p: rs.data.roll(3, 1, p), roll_spec(items, 3, 1)),
                 ('split(parity)', lambda p: rs.data.split(lambda i: i % 2, p), split_spec(items, lambda i: i % 2)),
                 ('group_by(i%3)', lambda p: rs.ops.group_by(lambda i: i % 3, p), group_by_spec(items, lambda i: i % 3)),
+                # a group_by whose parent key slot is re-created by successive windows: the same group on both sides of a window boundary
+                ('roll(2,2)>group_by(i%2)', lambda p: rs.data.roll(2, 2, rs.ops.group_by(lambda i: i % 2, p)),
+                 [g for w in [items[i:i + 2] for i in range(0, len(items), 2)] for g in group_by_spec(w, lambda i: i % 2)]),
+                ('split(i<3)>group_by(const)', lambda p: rs.data.split(lambda i: i < 3, rs.ops.group_by(lambda i: 0, p)),
+                 [g for w in split_spec(items, lambda i: i < 3) for g in group_by_spec(w, lambda i: 0)]),
             ):
                 got = run_mux(items, wrap(rx.pipe(f(), rs.data.to_list())))
                 exp = [alone(p)[0] if alone(p) else None for p in parts]
@@ -143,7 +148,7 @@ def check_c02(opts):
                 evals += 1; distinct.add((name, wname, tuple(items)))
                 if got != exp:
                     fails.append({'operator': name, 'inside': wname, 'input': items, 'expected(each lifetime alone)': exp, 'got': got})
-    return result('e2e.C02.confinement', f'{len(stateful)} stateful operators inside roll(2,2) / roll(3,1) / split / group_by on {len(seqs)} inputs',
+    return result('e2e.C02.confinement', f'{len(stateful)} stateful operators inside roll(2,2) / roll(3,1) / split / group_by / roll>group_by / split>group_by on {len(seqs)} inputs',
                   evals, len(distinct), fails, False, t0)
 
 
@@ -204,6 +209,10 @@ def check_c03(opts):
             ('time_split', lambda: [T('a'), rs.data.time_split(lambda i: i, 4, 2, pipeline=rx.pipe(*inner())), T('z')]),
             ('group_by>roll', lambda: [T('a'), rs.ops.group_by(lambda i: i % 2, rx.pipe(T('b'), rs.data.roll(3, 1, rx.pipe(*inner())), T('c'))), T('z')]),
             ('roll>group_by', lambda: [T('a'), rs.data.roll(4, 2, rx.pipe(T('b'), rs.ops.group_by(lambda i: i % 2, rx.pipe(*inner())), T('c'))), T('z')]),
+            ('split>group_by', lambda: [T('a'), rs.data.split(lambda i: i // 4, rx.pipe(T('b'), rs.ops.group_by(lambda i: i % 2, rx.pipe(*inner())), T('c'))), T('z')]),
+            ('roll(2,2)>group_by', lambda: [T('a'), rs.data.roll(2, 2, rx.pipe(T('b'), rs.ops.group_by(lambda i: i % 2, rx.pipe(*inner())), T('c'))), T('z')]),
+            ('roll(3,3)>group_by(const)', lambda: [T('a'), rs.data.roll(3, 3, rx.pipe(T('b'), rs.ops.group_by(lambda i: 0, rx.pipe(*inner())), T('c'))), T('z')]),
+            ('split>roll', lambda: [T('a'), rs.data.split(lambda i: i // 5, rx.pipe(T('b'), rs.data.roll(3, 2, rx.pipe(*inner())), T('c'))), T('z')]),
             ('split>split', lambda: [T('a'), rs.data.split(lambda i: i // 4, rx.pipe(T('b'), rs.data.split(lambda i: i % 2, rx.pipe(*inner())), T('c'))), T('z')]),
             ('group_by>tee_map', lambda: [T('a'), rs.ops.group_by(lambda i: i % 2, rx.pipe(T('b'), rs.ops.tee_map(rx.pipe(T('t0'), rs.ops.count(), T('t1')), rx.pipe(rs.math.max(), T('t2'))), T('c'))), T('z')]),
             ('roll>tee_map zip', lambda: [T('a'), rs.data.roll(3, 3, rx.pipe(T('b'), rs.ops.tee_map(rx.pipe(rs.ops.filter(lambda i: i % 2 == 0), T('t1')), rx.pipe(rs.ops.map(lambda i: i), T('t2')), join='zip'), T('c'))), T('z')]),
@@ -221,7 +230,7 @@ def check_c03(opts):
                 bad.append(('pipeline', out[1]))
             if bad:
                 fails.append({'pipeline': name, 'input': items, 'violations': [f'{n}: {m}' for n, m in bad[:4]]})
-    return result('e2e.C03.protocol_monitor', '12 nestings of group_by / roll / split / time_split / tee_map, taps at every boundary, 5 inputs (incl. empty)',
+    return result('e2e.C03.protocol_monitor', '16 nestings of group_by / roll / split / time_split / tee_map, taps at every boundary, 5 inputs (incl. empty)',
                   evals, len(distinct), fails, False, t0)
 
 
@@ -302,6 +311,17 @@ def check_c06(opts):
                 evals += 1
                 if got != split_spec(items, pf):
                     fails.append({'predicate': pn, 'input': items, 'expected': split_spec(items, pf), 'got': got})
+    # predicate values that are not equal to themselves (the shared math.nan object, distinct NaN objects): "differs by !="
+    import math
+    for n in range(0, 5):
+        for ks in itertools.product((0, 1, 2), repeat=n):
+            vals = {0: 0.5, 1: math.nan, 2: float('nan')}
+            items = [(j, vals[k]) for j, k in enumerate(ks)]
+            got = run_mux(items, rs.data.split(lambda i: i[1], [rs.ops.map(lambda i: i[0]), rs.data.to_list()]))
+            exp = [[i[0] for i in seg] for seg in split_spec(items, lambda i: i[1])]
+            evals += 1
+            if got != exp:
+                fails.append({'predicate': 'item[1] with 0.5 / the shared math.nan object / a fresh nan', 'input': repr(items), 'expected': exp, 'got': got})
     # split nested in split / roll / group_by: a re-created key starts a fresh segment whatever the previous window ended with
     for n in range(0, 7):
         for bits in itertools.product((0, 1), repeat=n):
@@ -314,7 +334,7 @@ def check_c06(opts):
                 evals += 1
                 if got != exp:
                     fails.append({'pipeline': f'{wn} > split(bit) > to_list', 'input': items, 'expected': exp, 'got': got})
-    return result('e2e.C06.split', 'all sequences over {0..3} of length <= 5 x 5 predicates (exhaustive); all bit sequences of length <= 6 with split nested in split / roll(3,3) / group_by',
+    return result('e2e.C06.split', 'all sequences over {0..3} of length <= 5 x 5 predicates (exhaustive); all sequences of length <= 4 over {0.5, math.nan, a fresh nan} as predicate values; all bit sequences of length <= 6 with split nested in split / roll(3,3) / group_by',
                   evals, evals, fails, True, t0)
 
 
@@ -398,7 +418,38 @@ def check_c08(opts):
                 evals += 1
                 if got != want:
                     fails.append({'pipeline': name, 'mode': mode, 'input': items, 'expected': want, 'got': got if isinstance(got, list) else str(got)[:200]})
-    return result('e2e.C08.tee_map', '2-4 branches from 6 pipelines x 3 joins x mux/plain x 4 inputs; nested tee_map in first / last / middle branch', evals, evals, fails, False, t0)
+    # the join state of a key does not outlive the key: tee_map inside tumbling windows / segments == tee_map run on each window alone
+    ub = [('even', branches[1][1]), ('gt2', branches[5][1]), ('pos_first', lambda: rx.pipe(rs.ops.filter(lambda i: i > 0), rs.ops.first())),
+          ('count_reduce', lambda: rx.pipe(rs.ops.count(reduce=True))), ('id', branches[0][1])]
+    for items in ([-1, -2, -3, 4, 5, 6, 7, 8, 9], [1, 3, 5, 2, 4, 7, 9, 11, 6], [2, 3, 4, 5, 6, 8, 7, 10, 12], [4, -1, -1, -1, -1, -1, 8, 1, 1]):
+        wins = [items[i:i + 3] for i in range(0, len(items), 3)]
+        for bs in itertools.chain(itertools.combinations(ub, 2), [(ub[0], ub[1], ub[4])]):
+            for join in ('zip', 'combine_latest', 'merge'):
+                tm = lambda: rs.ops.tee_map(*[mk() for _, mk in bs], join=join)
+                got = run_mux(items, rs.data.roll(3, 3, rx.pipe(tm(), rs.data.to_list())))
+                exp = [(run_mux(w, tm(), rs.data.to_list()) or [None])[0] for w in wins]
+                evals += 1
+                if got != exp:
+                    fails.append({'pipeline': f'roll(3,3,[tee_map({", ".join(b for b, _ in bs)}, join={join}), to_list])', 'input': items, 'expected (each window alone)': exp, 'got': got if isinstance(got, list) else str(got)[:200]})
+    # describe = tee_map of the requested metric branches, nothing more (rxsci/math/dist)
+    try:
+        D = rs.math.dist
+        data = [1.0, 5.0, 2.5, 9.0, 4.0, 4.5, 7.0]
+        for qs in ([], [0.5], [0.1, 0.9], None):
+            real_qs = [0.25, 0.5, 0.75] if qs is None else qs
+            for mode in ('mux', 'plain'):
+                run = run_mux if mode == 'mux' else run_plain
+                got = run(data, D.update(), D.describe(*([] if qs is None else [qs])))
+                exp = run(data, D.update(), rs.ops.tee_map(D.min(), D.max(), D.mean(), D.stddev(), *[D.quantile(q) for q in real_qs]))
+                names = ['min', 'max', 'mean', 'stddev'] + ['p{}'.format(int(q * 100)) for q in real_qs]
+                evals += 1
+                ok = isinstance(got, list) and isinstance(exp, list) and len(got) == len(exp) and all(tuple(g) == tuple(e) and list(getattr(g, '_fields', ())) == names for g, e in zip(got, exp))
+                if not ok:
+                    fails.append({'pipeline': f'dist.describe(quantiles={qs})', 'mode': mode, 'expected fields': names, 'expected': str(exp)[:300], 'got': str(got)[:300]})
+    except ImportError:
+        pass
+    return result('e2e.C08.tee_map', '2-4 branches from 6 pipelines x 3 joins x mux/plain x 4 inputs; nested tee_map in first / last / middle branch; tee_map with unbalanced branches inside '
+                  'roll(3,3) vs each window alone; dist.describe vs the tee_map of the requested metrics', evals, evals, fails, False, t0)
 
 
 # ---------------------------------------------------------------------------------------------- C09 / C10 / C11 / C13
@@ -704,19 +755,25 @@ def check_c14(opts):
                 if fails: break
             if len(fails) > 3: break
     # mapper
-    for trial in range(40 if tier == 'quick' else 400):
+    for trial in range(600 if tier == 'quick' else 6000):
         st = MemoryStore(data_type='mapper')
         model = {}; used = set()
         log = []
         for step in range(rnd.randint(1, 16)):
             idx = rnd.choice([0, 1, 4]); key = (idx, (0,))
-            op = rnd.choice(['add_key', 'add_map', 'get_map', 'iterate_map', 'add_map'])
+            op = rnd.choice(['add_key', 'add_map', 'get_map', 'iterate_map', 'add_map', 'del_add'])
             mk = rnd.choice(['a', 'b', 10 ** 20 + 1, (1, 2), 1.0])
             mk = (10 ** 20 + 1) if mk == 10 ** 20 + 1 else mk
             log.append((op, idx, mk))
             evals += 1
             if op == 'add_key':
                 for v in model.get(idx, {}).values(): used.discard(v)
+                st.add_key(key); model[idx] = {}
+            elif op == 'del_add':
+                # a slot deleted and re-added WITHOUT del_map on its entries reads as a fresh empty map
+                if idx in model:
+                    for v in model[idx].values(): used.discard(v)
+                    st.del_key(key)
                 st.add_key(key); model[idx] = {}
             elif idx in model:
                 if op == 'add_map' and mk not in model[idx]:
@@ -754,6 +811,10 @@ def check_c14(opts):
             elif op == 'del_key':
                 st.del_key(key)
                 for k in [k for k in live if k[0] == step[1]]: del live[k]
+            elif op == 'get_map':
+                got = st.get_map(key, step[2]); want = live.get((step[1], step[2]), NOT)
+                if not (got is want or got == want):
+                    return f'get_map({step[1]}, {step[2]!r}) = {got!r}, expected {want!r}'
             elif op == 'iterate_map':
                 got = list(st.iterate_map(key))
                 if got != order[step[1]]:
@@ -765,15 +826,22 @@ def check_c14(opts):
         [('add_key', 0), ('add_map', 0, 'a'), ('add_map', 0, 'b'), ('add_map', 0, 'c'), ('del_map', 0, 'a'), ('del_map', 0, 'b'), ('del_map', 0, 'c'), ('del_key', 0),
          ('add_key', 0), ('add_map', 0, 'p'), ('add_map', 0, 'q'), ('add_map', 0, 'r'), ('iterate_map', 0)],
     ]
+    directed += [
+        # re-created slot (del_key + add_key, no del_map): the first lookup of the new life uses the map key looked up last in the old one
+        [('add_key', 0), ('add_map', 0, 'a'), ('get_map', 0, 'a'), ('del_key', 0), ('add_key', 0), ('get_map', 0, 'a'), ('iterate_map', 0), ('add_map', 0, 'a'), ('get_map', 0, 'a'), ('iterate_map', 0)],
+        [('add_key', 3), ('add_key', 7), ('add_map', 3, 'a'), ('add_map', 7, 'a'), ('get_map', 7, 'a'), ('del_key', 7), ('add_key', 7), ('get_map', 7, 'a'), ('get_map', 3, 'a'), ('iterate_map', 7)],
+        [('add_key', 0), ('add_map', 0, 'a'), ('add_key', 0), ('get_map', 0, 'a'), ('iterate_map', 0)],
+    ]
     scripts = list(directed)
-    for trial in range(60 if tier == 'quick' else 600):
+    for trial in range(300 if tier == 'quick' else 3000):
         sc = [('add_key', 0), ('add_key', 1)]
         for _ in range(rnd.randint(4, 18)):
             idx = rnd.choice([0, 1, 3]); mk = rnd.choice('abcd')
-            op = rnd.choice(['add_map', 'add_map', 'del_map', 'iterate_map', 'complete', 'add_key'])
+            op = rnd.choice(['add_map', 'add_map', 'del_map', 'iterate_map', 'complete', 'add_key', 'get_map', 'recreate'])
             if op == 'complete':
                 sc += [('del_map', idx, m) for m in 'abcd'] + [('del_key', idx), ('add_key', idx)]
             elif op == 'add_key': sc.append(('add_key', idx))
+            elif op == 'recreate': sc += [('del_key', idx), ('add_key', idx), ('get_map', idx, mk)]
             else: sc.append((op, idx, mk) if op != 'iterate_map' else (op, idx))
         sc = [s_ for s_ in sc]
         scripts.append(sc)
